@@ -261,4 +261,434 @@ theorem setIntKey_some {V} (n : Nat) (k : Int) (v : V) (d : Dict V) (h0 : 0 ≤ 
   have h2 : ¬ (k < 0 ∨ bitLength k.natAbs > n) := by omega
   simp [h2]
 
+/-! ### the serialiser writes canonical trees -/
+/-- leaves of the dict tree, left to right, keys relative to this edge -/
+def Edge.leaves {V} : Edge V → List (Bits × V)
+  | .leaf s v => [(s, v)]
+  | .fork s l r => (Edge.leaves l).map (pre (s ++ [false])) ++ (Edge.leaves r).map (pre (s ++ [true]))
+
+/-- the tree spells keys of exactly `n` bits -/
+def Edge.Sized {V} : Edge V → Nat → Prop
+  | .leaf s _, n => s.length = n
+  | .fork s l r, n => ∃ m, n = s.length + 1 + m ∧ Edge.Sized l m ∧ Edge.Sized r m
+
+theorem int2baU_nat (v w : Nat) (h : v < 2 ^ w) (hw : w ≠ 0) : BOp.int2baU (v : Int) w = some (natToBits w v) := by
+  unfold BOp.int2baU
+  have : ¬ ((v : Int) < 0) := by omega
+  simp [hw, this]
+  omega
+
+theorem allSame_head {s : Bits} (h : allSame s = true) : s = List.replicate s.length (s.headD false) := by
+  obtain ⟨v, hv⟩ := (allSame_iff s).1 h
+  cases s with
+  | nil => simp
+  | cons a t =>
+    have : a = v := by
+      rw [List.length_cons, List.replicate_succ] at hv
+      exact (List.cons.inj hv).1
+    subst this
+    simpa using hv
+
+/-- `write_label` writes a hashmap.tlb encoding of the label with the reference constructor -/
+theorem labelBits_enc {s : Bits} {n : Nat} {lb : Bits} (hl : s.length ≤ n) (h : labelBits s n = some lb) :
+    LabelEnc n s (refLabelKind s.length n (allSame s)) lb := by
+  unfold labelBits at h
+  rw [detect_eq] at h
+  have hlt : s.length < 2 ^ bitLength n := Nat.lt_of_le_of_lt hl (lt_two_pow_bitLength n)
+  cases hk : refLabelKind s.length n (allSame s) with
+  | short =>
+    rw [hk] at h; simp at h; subst h; exact LabelEnc.short hl
+  | long =>
+    rw [hk] at h
+    have hw : bitLength n ≠ 0 := by
+      intro h0; unfold refLabelKind lenBits at hk; rw [h0] at hk
+      rw [h0] at hlt; simp at hlt; simp [hlt] at hk
+    rw [int2baU_nat _ _ hlt hw] at h
+    simp at h; subst h
+    exact LabelEnc.long hl
+  | same =>
+    rw [hk] at h
+    have hs : allSame s = true ∧ s.length > 1 := by
+      simp only [refLabelKind] at hk
+      by_cases hc : allSame s = true ∧ s.length > 1 ∧ lenBits n < 2 * s.length - 1
+      · exact ⟨hc.1, hc.2.1⟩
+      · rw [if_neg hc] at hk
+        split at hk <;> simp at hk
+    have hw : bitLength n ≠ 0 := by
+      intro h0
+      have : n < 2 ^ 0 := (bitLength_le_iff n 0).1 (by omega)
+      simp at this; omega
+    rw [int2baU_nat _ _ hlt hw] at h
+    simp at h; subst h
+    have := LabelEnc.same (m := n) (s.headD false) (allSame_head hs.1) hl
+    simpa [lenBits, List.headD_eq_head?_getD] using this
+
+/-- labels always fit the declared bound when they are written (needed the other way round: existence) -/
+theorem labelBits_some {s : Bits} {n : Nat} (hl : s.length ≤ n) : ∃ lb, labelBits s n = some lb := by
+  unfold labelBits
+  have hlt : s.length < 2 ^ bitLength n := Nat.lt_of_le_of_lt hl (lt_two_pow_bitLength n)
+  by_cases hw : bitLength n = 0
+  · have : n < 2 ^ 0 := (bitLength_le_iff n 0).1 (by omega)
+    have h0 : s.length = 0 := by simp at this; omega
+    rw [detect_eq]
+    simp [refLabelKind, lenBits, hw, h0]
+  · rw [int2baU_nat _ _ hlt hw]
+    cases detect_label_type s n <;> simp
+
+def serKV {V} (ser : V → Option Val) (p : Bits × V) : Bits × Option Val := (p.1, ser p.2)
+def someKV (p : Bits × Val) : Bits × Option Val := (p.1, some p.2)
+
+theorem writeEdge_valid {V} (ser : V → Option Val) (t : Edge V) : ∀ (n : Nat) (c : Cell), Edge.Sized t n →
+    writeEdge ser t n = some c →
+    ∃ kv, ValidHMK refPolicy false n c kv ∧ (Edge.leaves t).map (serKV ser) = kv.map someKV := by
+  induction t with
+  | leaf s v =>
+    intro n c hs h
+    simp only [Edge.Sized] at hs
+    simp only [writeEdge, Option.bind_eq_bind] at h
+    cases hlb : labelBits s n with
+    | none => simp [hlb] at h
+    | some lb =>
+      cases hv : ser v with
+      | none => simp [hlb, hv] at h
+      | some val =>
+        obtain ⟨vb, vr⟩ := val
+        simp [hlb, hv] at h
+        obtain ⟨_, rfl⟩ := h
+        refine ⟨[(s, (vb, vr))], ?_, by simp [Edge.leaves, serKV, someKV, hv]⟩
+        exact ValidHMK.leaf (labelBits_enc (by omega) hlb) rfl hs
+  | fork s l r ihl ihr =>
+    intro n c hs h
+    obtain ⟨m, hn, hsl, hsr⟩ := hs
+    simp only [writeEdge, Option.bind_eq_bind] at h
+    cases hlb : labelBits s n with
+    | none => simp [hlb] at h
+    | some lb =>
+      have hm : n - s.length - 1 = m := by omega
+      simp only [hlb, Option.bind_some, hm] at h
+      split at h
+      · simp at h
+      · cases hlc : writeEdge ser l m with
+        | none => simp [hlc] at h
+        | some lc =>
+          cases hrc : writeEdge ser r m with
+          | none => simp [hlc, hrc] at h
+          | some rc =>
+            simp [hlc, hrc] at h
+            subst h
+            obtain ⟨kvl, vl, el⟩ := ihl m lc hsl hlc
+            obtain ⟨kvr, vr, er⟩ := ihr m rc hsr hrc
+            refine ⟨kvl.map (pre (s ++ [false])) ++ kvr.map (pre (s ++ [true])), ?_, ?_⟩
+            · exact ValidHMK.fork (labelBits_enc (by omega) hlb) rfl hn vl vr
+            · simp only [Edge.leaves, List.map_append, List.map_map]
+              have e1 : ∀ p : Bits, (serKV ser ∘ pre p : Bits × V → _) = (fun q : Bits × Option Val => (p ++ q.1, q.2)) ∘ serKV ser := by
+                intro p; funext x; simp [serKV, pre]
+              have e2 : ∀ p : Bits, (someKV ∘ pre p) = (fun q : Bits × Option Val => (p ++ q.1, q.2)) ∘ someKV := by
+                intro p; funext x; simp [someKV, pre]
+              rw [e1, e1, e2, e2, ← List.map_map, ← List.map_map, ← List.map_map, ← List.map_map, el, er]
+
+/-! ### find_common_prefix -/
+theorem lexLe_refl (a : Bits) : lexLe a a = true := by
+  induction a with
+  | nil => simp [lexLe]
+  | cons x t ih => simp [lexLe, ih]
+
+theorem lexLe_total (a b : Bits) : lexLe a b = true ∨ lexLe b a = true := by
+  induction a generalizing b with
+  | nil => simp [lexLe]
+  | cons x t ih =>
+    cases b with
+    | nil => simp [lexLe]
+    | cons y u =>
+      simp only [lexLe]
+      cases x <;> cases y <;> simp [ih]
+
+theorem lexLe_trans (a b c : Bits) : lexLe a b = true → lexLe b c = true → lexLe a c = true := by
+  induction a generalizing b c with
+  | nil => simp [lexLe]
+  | cons x t ih =>
+    cases b with
+    | nil => simp [lexLe]
+    | cons y u =>
+      cases c with
+      | nil => simp [lexLe]
+      | cons z w =>
+        simp only [lexLe]
+        cases x <;> cases y <;> cases z <;> simp <;> exact ih u w
+
+/-- a common prefix of the two ends of a lexicographic interval is a prefix of everything in between -/
+theorem prefix_between (p a b c : Bits) : lexLe a b = true → lexLe b c = true → p <+: a → p <+: c → p <+: b := by
+  induction p generalizing a b c with
+  | nil => simp
+  | cons x p ih =>
+    intro hab hbc ha hc
+    obtain ⟨a1, rfl⟩ := ha
+    obtain ⟨c1, rfl⟩ := hc
+    cases b with
+    | nil => simp [lexLe] at hab
+    | cons y b1 =>
+      simp only [List.cons_append, lexLe] at hab hbc
+      have hxy : x = y := by
+        cases x <;> cases y <;> simp_all
+      subst hxy
+      simp at hab hbc
+      have := ih (p ++ a1) b1 (p ++ c1) hab hbc (by simp) (by simp)
+      simpa using this
+
+theorem commonPrefix_left (a b : Bits) : commonPrefix a b <+: a := by
+  induction a generalizing b with
+  | nil => simp [commonPrefix]
+  | cons x t ih =>
+    cases b with
+    | nil => simp [commonPrefix]
+    | cons y u =>
+      simp only [commonPrefix]
+      split
+      · rename_i h; simp at h; subst h; simpa using ih u
+      · simp
+
+theorem commonPrefix_right (a b : Bits) : commonPrefix a b <+: b := by
+  induction a generalizing b with
+  | nil => simp [commonPrefix]
+  | cons x t ih =>
+    cases b with
+    | nil => simp [commonPrefix]
+    | cons y u =>
+      simp only [commonPrefix]
+      split
+      · rename_i h; simp at h; subst h; simpa using ih u
+      · simp
+
+theorem lexMin_le (k : Bits) (ks : List Bits) : ∀ x ∈ k :: ks, lexLe (lexMin k ks) x = true := by
+  induction ks generalizing k with
+  | nil => intro x hx; simp at hx; subst hx; simp [lexMin, lexLe_refl]
+  | cons b ks ih =>
+    intro x hx
+    have hstep : lexMin k (b :: ks) = lexMin (if lexLe k b then k else b) ks := by simp [lexMin]
+    rw [hstep]
+    have hk' := ih (if lexLe k b then k else b)
+    by_cases hkb : lexLe k b = true
+    · simp only [hkb, if_true] at hk' ⊢
+      rcases List.mem_cons.1 hx with rfl | hx
+      · exact hk' _ (by simp)
+      · rcases List.mem_cons.1 hx with rfl | hx
+        · exact lexLe_trans _ _ _ (hk' k (by simp)) hkb
+        · exact hk' _ (by simp [hx])
+    · have hbk : lexLe b k = true := by
+        rcases lexLe_total k b with h | h
+        · exact absurd h hkb
+        · exact h
+      simp only [hkb] at hk' ⊢
+      simp only [Bool.false_eq_true, if_false] at hk' ⊢
+      rcases List.mem_cons.1 hx with rfl | hx
+      · exact lexLe_trans _ _ _ (hk' b (by simp)) hbk
+      · rcases List.mem_cons.1 hx with rfl | hx
+        · exact hk' _ (by simp)
+        · exact hk' _ (by simp [hx])
+
+theorem le_lexMax (k : Bits) (ks : List Bits) : ∀ x ∈ k :: ks, lexLe x (lexMax k ks) = true := by
+  induction ks generalizing k with
+  | nil => intro x hx; simp at hx; subst hx; simp [lexMax, lexLe_refl]
+  | cons b ks ih =>
+    intro x hx
+    have hstep : lexMax k (b :: ks) = lexMax (if lexLe k b then b else k) ks := by simp [lexMax]
+    rw [hstep]
+    have hk' := ih (if lexLe k b then b else k)
+    by_cases hkb : lexLe k b = true
+    · simp only [hkb, if_true] at hk' ⊢
+      rcases List.mem_cons.1 hx with rfl | hx
+      · exact lexLe_trans _ _ _ hkb (hk' b (by simp))
+      · rcases List.mem_cons.1 hx with rfl | hx
+        · exact hk' _ (by simp)
+        · exact hk' _ (by simp [hx])
+    · have hbk : lexLe b k = true := by
+        rcases lexLe_total k b with h | h
+        · exact absurd h hkb
+        · exact h
+      simp only [hkb] at hk' ⊢
+      simp only [Bool.false_eq_true, if_false] at hk' ⊢
+      rcases List.mem_cons.1 hx with rfl | hx
+      · exact hk' _ (by simp)
+      · rcases List.mem_cons.1 hx with rfl | hx
+        · exact lexLe_trans _ _ _ hbk (hk' k (by simp))
+        · exact hk' _ (by simp [hx])
+
+/-- `find_common_prefix` returns a prefix of every key -/
+theorem findCommonPrefix_prefix (keys : List Bits) : ∀ x ∈ keys, findCommonPrefix keys <+: x := by
+  match keys with
+  | [] => simp
+  | [k] => simp [findCommonPrefix]
+  | k :: b :: ks =>
+    intro x hx
+    simp only [findCommonPrefix]
+    exact prefix_between _ _ _ _ (lexMin_le k (b :: ks) x hx) (le_lexMax k (b :: ks) x hx)
+      (commonPrefix_left _ _) (commonPrefix_right _ _)
+
+/-! ### build_edge -/
+def leftOf {V} (src : List (Bits × V)) : List (Bits × V) :=
+  src.filterMap (fun kv => match kv.1 with | false :: t => some (t, kv.2) | _ => none)
+def rightOf {V} (src : List (Bits × V)) : List (Bits × V) :=
+  src.filterMap (fun kv => match kv.1 with | false :: _ => none | k => some (k.drop 1, kv.2))
+
+theorem forkMap_eq {V} (src : List (Bits × V)) :
+    forkMap src = if (leftOf src).isEmpty || (rightOf src).isEmpty then none else some (leftOf src, rightOf src) := rfl
+
+theorem fork_perm {V} (rest : List (Bits × V)) (h : ∀ kv ∈ rest, kv.1 ≠ []) :
+    List.Perm rest ((leftOf rest).map (pre [false]) ++ (rightOf rest).map (pre [true])) := by
+  induction rest with
+  | nil => simp [leftOf, rightOf]
+  | cons kv rest ih =>
+    have ih' := ih (fun x hx => h x (List.mem_cons_of_mem _ hx))
+    obtain ⟨k, v⟩ := kv
+    cases k with
+    | nil => exact absurd rfl (h (([] : Bits), v) (by simp))
+    | cons b t =>
+      cases b with
+      | false =>
+        simp only [leftOf, rightOf, List.filterMap_cons, List.map_cons, List.cons_append, pre] at ih' ⊢
+        exact List.Perm.cons _ ih'
+      | true =>
+        simp only [leftOf, rightOf, List.filterMap_cons, List.map_cons, List.drop_succ_cons, List.drop_zero, pre] at ih' ⊢
+        exact (List.Perm.cons _ ih').trans List.perm_middle.symm
+
+theorem leftOf_len {V} (rest : List (Bits × V)) (m : Nat) (h : ∀ kv ∈ rest, kv.1.length = m + 1) :
+    ∀ kv ∈ leftOf rest, kv.1.length = m := by
+  intro kv hkv
+  simp only [leftOf, List.mem_filterMap] at hkv
+  obtain ⟨a, ha, hm⟩ := hkv
+  have := h a ha
+  obtain ⟨k, v⟩ := a
+  cases k with
+  | nil => simp at hm
+  | cons b t => cases b <;> simp at hm; subst hm; simpa using this
+
+theorem rightOf_len {V} (rest : List (Bits × V)) (m : Nat) (h : ∀ kv ∈ rest, kv.1.length = m + 1) :
+    ∀ kv ∈ rightOf rest, kv.1.length = m := by
+  intro kv hkv
+  simp only [rightOf, List.mem_filterMap] at hkv
+  obtain ⟨a, ha, hm⟩ := hkv
+  have := h a ha
+  obtain ⟨k, v⟩ := a
+  cases k with
+  | nil => simp at this
+  | cons b t => cases b <;> simp at hm; subst hm; simpa using this
+
+theorem map_pre_fst {V} (p : Bits) (l : List (Bits × V)) : (l.map (pre p)).map Prod.fst = (l.map Prod.fst).map (p ++ ·) := by
+  simp [pre, List.map_map, Function.comp_def]
+
+theorem nodup_of_map_append {l : List Bits} (p : Bits) (h : (l.map (p ++ ·)).Nodup) : l.Nodup := by
+  exact (List.pairwise_map.1 h).imp (fun {a b} hab heq => hab (congrArg _ heq))
+
+/-- main structural fact about `build_edge`: if it returns, the tree spells n-bit keys and its leaves are a permutation of the input -/
+theorem buildEdge_leaves {V} : ∀ (fuel n : Nat) (src : List (Bits × V)) (t : Edge V),
+    (∀ kv ∈ src, kv.1.length = n) → (src.map Prod.fst).Nodup → buildEdge fuel src = some t →
+    Edge.Sized t n ∧ List.Perm (Edge.leaves t) src := by
+  intro fuel
+  induction fuel with
+  | zero => intro n src t _ _ h; simp [buildEdge] at h
+  | succ fuel ih =>
+    intro n src t hlen hnd h
+    rw [buildEdge] at h
+    dsimp only at h
+    split at h
+    · simp at h
+    · rename_i hne
+      -- label is a prefix of every key
+      have hpre : ∀ kv ∈ src, findCommonPrefix (src.map (·.1)) <+: kv.1 :=
+        fun kv hkv => findCommonPrefix_prefix _ kv.1 (List.mem_map_of_mem (f := (·.1)) hkv)
+      generalize hlab : findCommonPrefix (src.map (·.1)) = label at h hpre
+      have hsrc : src = (src.map (fun kv => (kv.1.drop label.length, kv.2))).map (pre label) := by
+        rw [List.map_map]
+        conv => lhs; rw [← List.map_id src]
+        apply List.map_congr_left
+        intro kv hkv
+        obtain ⟨r, hr⟩ := hpre kv hkv
+        obtain ⟨k, v⟩ := kv
+        simp only at hr
+        simp [pre, ← hr]
+      generalize hrest : src.map (fun kv => (kv.1.drop label.length, kv.2)) = rest at h hsrc
+      have hrlen : ∀ kv ∈ rest, kv.1.length = n - label.length := by
+        intro kv hkv
+        rw [← hrest] at hkv
+        obtain ⟨a, ha, rfl⟩ := List.mem_map.1 hkv
+        simp [hlen a ha]
+      have hlabn : ∀ kv ∈ src, label.length ≤ n := by
+        intro kv hkv
+        have := (hpre kv hkv).length_le
+        rw [hlen kv hkv] at this; exact this
+      split at h
+      · -- single entry: leaf
+        rename_i k v
+        simp at h; subst h
+        simp only [List.map_cons, List.map_nil, pre] at hsrc
+        have hk : k.length = n - label.length := hrlen (k, v) (by simp)
+        have hl := hlabn (label ++ k, v) (by rw [hsrc]; simp)
+        have hfull := hlen (label ++ k, v) (by rw [hsrc]; simp)
+        -- single key: find_common_prefix returns the key itself
+        have hk0 : k = [] := by
+          have : src.map (·.1) = [label ++ k] := by rw [hsrc]; simp
+          rw [this] at hlab
+          simp [findCommonPrefix] at hlab
+          exact hlab
+        subst hk0
+        simp at hfull
+        refine ⟨by simpa [Edge.Sized] using hfull, ?_⟩
+        rw [hsrc]; simp [Edge.leaves]
+      · rename_i hnotsingle
+        rw [forkMap_eq] at h
+        by_cases hemp : (leftOf rest = [] ∨ rightOf rest = [])
+        · simp [hemp] at h
+        · have hnonempty := hemp
+          simp only [Bool.or_eq_true, List.isEmpty_iff, hemp, if_false] at h
+          cases hl : buildEdge fuel (leftOf rest) with
+          | none => simp [hl] at h
+          | some le =>
+            cases hr : buildEdge fuel (rightOf rest) with
+            | none => simp [hl, hr] at h
+            | some re =>
+              simp [hl, hr] at h
+              subst h
+              -- rest keys are non-empty: otherwise all keys equal the label, contradicting distinctness of ≥ 2 keys
+              have hnd_rest : (rest.map Prod.fst).Nodup := by
+                rw [hsrc, map_pre_fst] at hnd
+                exact nodup_of_map_append _ hnd
+              have hpos : 0 < n - label.length := by
+                by_contra hz
+                have hz : n - label.length = 0 := by omega
+                have hall : ∀ kv ∈ rest, kv.1 = [] := fun kv hkv => List.length_eq_zero_iff.1 (by rw [hrlen kv hkv, hz])
+                -- rest has ≥ 2 elements or exactly... rest ≠ [] and not singleton
+                match rest, hnotsingle, hall, hnd_rest, hnonempty with
+                | [], _, _, _, hne' => simp [leftOf] at hne'
+                | [(k, v)], hns, _, _, _ => exact hns k v rfl
+                | a :: b :: tl, _, hall, hnd', _ =>
+                  have ha := hall a (by simp)
+                  have hb := hall b (by simp)
+                  simp [ha, hb] at hnd'
+              obtain ⟨m, hm⟩ : ∃ m, n - label.length = m + 1 := ⟨n - label.length - 1, by omega⟩
+              have hrlen' : ∀ kv ∈ rest, kv.1.length = m + 1 := fun kv hkv => by rw [hrlen kv hkv, hm]
+              have hne' : ∀ kv ∈ rest, kv.1 ≠ [] := by
+                intro kv hkv h0; have := hrlen' kv hkv; rw [h0] at this; simp at this
+              have hperm := fork_perm rest hne'
+              have hnd2 : ((leftOf rest).map (pre [false]) ++ (rightOf rest).map (pre [true])).map Prod.fst |>.Nodup :=
+                (hperm.map Prod.fst).nodup_iff.1 hnd_rest
+              rw [List.map_append, map_pre_fst, map_pre_fst] at hnd2
+              have hndl : ((leftOf rest).map Prod.fst).Nodup := nodup_of_map_append _ (List.nodup_append.1 hnd2).1
+              have hndr : ((rightOf rest).map Prod.fst).Nodup := nodup_of_map_append _ (List.nodup_append.1 hnd2).2.1
+              obtain ⟨sl, pl⟩ := ih m (leftOf rest) le (leftOf_len rest m hrlen') hndl hl
+              obtain ⟨sr, pr⟩ := ih m (rightOf rest) re (rightOf_len rest m hrlen') hndr hr
+              have hsome : ∃ kv, kv ∈ src := by
+                cases src with
+                | nil => simp at hne
+                | cons a _ => exact ⟨a, by simp⟩
+              obtain ⟨kv0, hkv0⟩ := hsome
+              have := hlabn kv0 hkv0
+              refine ⟨⟨m, by omega, sl, sr⟩, ?_⟩
+              rw [hsrc]
+              simp only [Edge.leaves]
+              have e : ∀ (b : Bool) (l : List (Bits × V)), l.map (pre (label ++ [b])) = (l.map (pre [b])).map (pre label) := by
+                intro b l; rw [pre_pre]
+              rw [e, e, ← List.map_append]
+              apply List.Perm.map
+              exact ((pl.map _).append (pr.map _)).trans hperm.symm
+
 end TonVerif.Proofs.Hashmap
